@@ -258,12 +258,23 @@ theorem handleDisconnect_tr (s : S) (reason : Option Nat) (hs : s.sock.isSome = 
       simp [view, vCloseBroker, vSockClose, closeEvs, sockClose, callSocketUnregisterWrite,
         disconnectingOrDone, dOD, emit, hc, hreg, hext, hcb, hcs, hcs2]
 
-/-- the result cannot make `loop_read` close the connection -/
-def QuietRes (r : HRes) : Prop := ∀ rc, r = .rc rc → ¬ rc > 0
+/-- the result cannot make `loop_read` close the connection: either the code is not an error, or the
+socket is already gone (F25: the in-handler reconnect failed and was reported as `rcConnLost`) -/
+def QuietRes (p : S × HRes) : Prop := ∀ rc, p.2 = .rc rc → rc > 0 → p.1.sock = none
+
+theorem reconnect_refused_sock {s s' : S} {ok : Bool}
+    (h : s.reconnect ok = (s', .raised "ConnectionRefusedError")) : s'.sock = none := by
+  rw [reconnect_eq] at h
+  split at h
+  · simp at h
+  · split at h
+    · have h1 : rcB s = s' := congrArg Prod.fst h
+      rw [← h1]; exact (rcB_spec s).2.1
+    · simp at h
 
 theorem handleConnack_tr (s : S) (sp : Bool) (result : Nat) (ok : Bool) (hs : s.sock.isSome = true) :
     TrN (view s) (view (s.handleConnack sp result ok).1) ∨
-    (TrQ (view s) (view (s.handleConnack sp result ok).1) ∧ QuietRes (s.handleConnack sp result ok).2) := by
+    (TrQ (view s) (view (s.handleConnack sp result ok).1) ∧ QuietRes (s.handleConnack sp result ok)) := by
   unfold handleConnack
   simp only
   split
@@ -273,9 +284,16 @@ theorem handleConnack_tr (s : S) (sp : Bool) (result : Nat) (ok : Bool) (hs : s.
       · exact Or.inl (Path.refl _)
       · right
         have h := reconnect_tr { s with proto := 3 } ok
-        refine ⟨h.1, ?_⟩
-        intro rc hrc
-        rw [h.2 rc hrc]; decide
+        split
+        · rename_i s' heq
+          rw [heq] at h
+          refine ⟨h.1.trans (emit_tr rfl _ _ rfl), ?_⟩
+          intro rc _ _
+          exact reconnect_refused_sock (s' := s') heq
+        · refine ⟨h.1, ?_⟩
+          intro rc hrc hpos
+          rw [h.2 rc hrc] at hpos
+          exact absurd hpos (by decide)
     · left
       by_cases h0 : result = 0
       · subst h0
@@ -290,7 +308,7 @@ theorem handleConnack_tr (s : S) (sp : Bool) (result : Nat) (ok : Bool) (hs : s.
 
 theorem packetHandle_tr (s : S) (p : RxPkt) (ok : Bool) (hs : s.sock.isSome = true) :
     TrN (view s) (view (s.packetHandle p ok).1) ∨
-    (TrQ (view s) (view (s.packetHandle p ok).1) ∧ QuietRes (s.packetHandle p ok).2) := by
+    (TrQ (view s) (view (s.packetHandle p ok).1) ∧ QuietRes (s.packetHandle p ok)) := by
   cases p with
   | connack sp rc => exact handleConnack_tr s sp rc ok hs
   | publish m => exact Or.inl (handlePublish_tr s m)
@@ -341,7 +359,11 @@ theorem loopRead_tr (s : S) (item : RxItem) (ok : Bool) :
         · simp only [hpos, if_true]
           rcases h with h | h
           · exact Or.inl (h.trans (loopRcHandle_tr { s1 with lastIn := s1.now } rc hpos))
-          · exact absurd hpos (h.2 rc rfl)
+          · right
+            have hn : s1.sock = none := h.2 rc rfl hpos
+            have hne : rc ≠ 0 := by intro h0; rw [h0] at hpos; exact absurd hpos (by decide)
+            simp only [loopRcHandle, hne, ne_eq, not_false_eq_true, if_true, hn, Option.isNone_none]
+            exact h.1.trans (Path.of_eq (by simp [view, hn]))
         · simp only [hpos, if_false]
           have h' : TrN (view s) (view ({ s1 with lastIn := s1.now } : S)) ∨ TrQ (view s) (view ({ s1 with lastIn := s1.now } : S)) := by
             rcases h with h | h
